@@ -1,5 +1,5 @@
 (* C02 — assignments never lose, duplicate or reorder matched values. *)
-From TxV Require Import Core.Base Model.MultBase Gen.SrcMult Model.Mult Proofs.MultProofs Proofs.MultFlowProofs Proofs.MultRealProofs.
+From TxV Require Import Core.Base Model.MultBase Gen.SrcMult Model.Mult Proofs.MultProofs Proofs.MultFlowProofs Proofs.MultRealProofs Proofs.MultSepProofs.
 
 (* An attribute is a list exactly when one object can collect more than one value for it:
    `infer` is the multiplicity inference of the current source (visit_assignment's operator table followed by
@@ -60,6 +60,49 @@ Theorem C02_no_silent_overwrite : forall b a t d,
   build a (init_val (infer b a) d) t = Ok (AList (values_of a t)).
 Proof. exact no_silent_overwrite. Qed.
 Print Assumptions C02_no_silent_overwrite.
+
+(* Separators.  The children of a `*=`/`+=` node are the nodes of the matched elements and of the matched separators; a
+   separator that matched the empty string leaves no node, so elements and separators need not alternate.  With the
+   way the current source tells them apart (src_sep_mode, translated from model.py's list handler), the handler stores
+   exactly the element values, in order, whatever the arrangement of the children. *)
+Theorem C02_separators_never_stored : forall hs cs,
+  (hs = false -> forallb (fun c => negb (c_sep c)) cs = true) ->
+  child_values src_sep_mode hs cs = elem_values cs.
+Proof. exact separators_never_stored. Qed.
+Print Assumptions C02_separators_never_stored.
+
+(* Telling separators by position (every odd-indexed child) loses a value and stores separator text once a separator
+   matched empty: children 1 2 "," 3 give [1; ","].  Telling them by the rule name "sep" drops every value matched by a
+   grammar rule called `sep`. *)
+Theorem C02_positional_separator_skip_refuted :
+  elem_values sep_witness = [SInt 1; SInt 2; SInt 3]
+  /\ child_values SepByPosition true sep_witness = [SInt 1; SStr [44%N]].
+Proof. exact positional_skip_refuted. Qed.
+Print Assumptions C02_positional_separator_skip_refuted.
+
+Theorem C02_separator_by_name_refuted :
+  elem_values [Child false true (SInt 1)] = [SInt 1] /\ child_values SepByName false [Child false true (SInt 1)] = [].
+Proof. exact by_name_refuted. Qed.
+Print Assumptions C02_separator_by_name_refuted.
+
+(* Value flow stated on parse-tree nodes (attribute, operator, children tagged element/separator): what ends up in the
+   attribute is exactly what the elements of the assignments matched - no separator text, nothing lost - in order. *)
+Theorem C02_values_in_order_nodes : forall b a ns d,
+  grammar_ok b = true -> forallb node_wf ns = true -> emits b (map (node_ev src_sep_mode) ns) -> truthy d = false ->
+  build a (init_val (infer b a) d) (map (node_ev src_sep_mode) ns)
+  = Ok (if is_list (infer b a) then AList (node_values a ns)
+        else AScalar (match node_values a ns with [] => d | v :: _ => v end))
+  /\ (is_list (infer b a) = false -> length (node_values a ns) <= 1).
+Proof. exact values_in_order_nodes. Qed.
+Print Assumptions C02_values_in_order_nodes.
+
+Example C02_nonvacuous_nodes :
+  grammar_ok witness_body2 = true /\ forallb node_wf witness_nodes = true
+  /\ emits witness_body2 (map (node_ev src_sep_mode) witness_nodes)
+  /\ build 0 (init_val (infer witness_body2 0) (SInt 0)) (map (node_ev src_sep_mode) witness_nodes)
+     = Ok (AList [SInt 0; SInt 1; SInt 2; SInt 3]).
+Proof. exact nonvacuous_nodes. Qed.
+Print Assumptions C02_nonvacuous_nodes.
 
 (* The inference as it was before the repair (every branch of an ordered choice got a fresh, empty set of seen
    assignments that was dropped afterwards) violates the statement: witness_body = `(a=X | b=X) a=X`. *)
